@@ -24,6 +24,7 @@ RULE = (
     "non-trivial = sympy.cse extracts at least one temporary for the program (counted from the generated C++ / the "
     "compiled Python block). Also the programs renamed so that inputs are called _t0.._t4, and a block-size sweep (blocks of "
     "1..64 statements, rows with more temporaries than statements)."
+    " Model values of three programs whose intermediates overflow to inf (1/(1+exp(896))) are compared on / off / reference at points that reach the overflow."
 )
 ASSUMPTIONS = ["bounds as C01/C02; Python temporaries are observed behaviourally (a temporary used before assignment raises)"]
 REL = 1e-9
